@@ -54,13 +54,14 @@ pub struct World {
     pub cost_lists: BTreeMap<u8, Vec<i128>>,
 }
 
-pub const N_OUTPOINTS: usize = 20;
+pub const N_OUTPOINTS: usize = 24;
 pub fn op_outpoint(i: usize) -> TransactionInput {
     // adversarial order: hashes ff.., 00.., 7f.., 80.. with indices that do not sort like the list
     const T: [(u8, u32); N_OUTPOINTS] = [
         (0xff, 0), (0x00, 1), (0x00, 0), (0x7f, 65535), (0x80, 256), (0x00, 24), (0x7f, 2), (0xfe, 9), (0x01, 0), (0x80, 1), (0x10, 23), (0xc0, 7), (0x20, 3), (0x30, 4), (0x40, 5), (0x50, 6),
-        // 16, 17: the UTxOs holding reference scripts; 18, 19: explicit reference inputs
         (0x21, 3), (0x31, 4), (0x41, 5), (0x51, 6),
+        // 20, 21: the UTxOs holding reference scripts; 22, 23: explicit reference inputs
+        (0x22, 3), (0x32, 4), (0x42, 5), (0x52, 6),
     ];
     TransactionInput::new(&txhash(T[i].0), T[i].1)
 }
@@ -88,6 +89,16 @@ impl World {
             subs.add(&native_pubkey(0));
             subs.add(&native_pubkey(3));
             NativeScript::new_script_all(&ScriptAll::new(&subs))
+        }, {
+            // 2-of-3 over key 1, any[key 2, not-before-slot-10], key 3: every structural arm of a native script
+            let mut inner = NativeScripts::new();
+            inner.add(&native_pubkey(2));
+            inner.add(&NativeScript::new_timelock_start(&TimelockStart::new_timelockstart(&bn(10))));
+            let mut subs = NativeScripts::new();
+            subs.add(&native_pubkey(1));
+            subs.add(&NativeScript::new_script_any(&ScriptAny::new(&inner)));
+            subs.add(&native_pubkey(3));
+            NativeScript::new_script_n_of_k(&ScriptNOfK::new(2, &subs))
         }];
         let plutus = vec![PlutusScript::new(vec![1, 2, 3]), PlutusScript::new_v2(vec![4; 10]), PlutusScript::new_v3(vec![4; 10])]; // 1 and 2: the same bytes under two languages are two scripts
         let policies = vec![native[0].hash(), plutus[1].hash(), sh(2), plutus[0].hash()];
@@ -140,6 +151,10 @@ impl World {
             // 14, 15: locked by the same Plutus script as 7 (their outpoints sort before 7's)
             UtxoSpec { owner: Owner::Plutus(1), base: false, coin: 4_200_000, assets: vec![] },
             UtxoSpec { owner: Owner::Plutus(1), base: false, coin: 4_300_000, assets: vec![] },
+            // 16: locked by the same two-key native script as 10
+            UtxoSpec { owner: Owner::Native(1), base: false, coin: 3_600_000, assets: vec![] },
+            // 17: locked by the 2-of-3 script
+            UtxoSpec { owner: Owner::Native(2), base: false, coin: 3_700_000, assets: vec![] },
         ];
         for (i, s) in specs.into_iter().enumerate() {
             let addr = match &s.owner {
@@ -289,7 +304,7 @@ impl St {
 }
 
 pub const WD_AMOUNT: [u64; 4] = [5_000_000, 1_000_000, 0x1_0000_0000, 1_500_000];
-pub const REF_SCRIPT_OUTPOINT: usize = 16;
+pub const REF_SCRIPT_OUTPOINT: usize = 20;
 pub const REF_SCRIPT_SIZE: usize = 600;
 
 fn redeemer_for(tag: RedeemerTag, marker: u64) -> Redeemer {
@@ -310,9 +325,25 @@ fn plutus_witness(w: &World, p: usize, variant: u8, tag: RedeemerTag, marker: u6
             Some(d) => PlutusWitness::new(&w.plutus[p], &w.datums[d], &red),
             None => PlutusWitness::new_without_datum(&w.plutus[p], &red),
         }
-    } else {
+    } else if variant == 1 {
         let src = PlutusScriptSource::new_ref_input(&w.plutus[p].hash(), &op_outpoint(REF_SCRIPT_OUTPOINT), &plutus_lang(w, p), REF_SCRIPT_SIZE);
         PlutusWitness::new_with_ref_without_datum(&src, &red)
+    } else {
+        // variants 2 and 3: the datum sits in a reference input (no datum witness);
+        // 2 = script in the witness set, 3 = script by reference as well
+        let src = if variant == 2 { PlutusScriptSource::new(&w.plutus[p]) } else { PlutusScriptSource::new_ref_input(&w.plutus[p].hash(), &op_outpoint(REF_SCRIPT_OUTPOINT), &plutus_lang(w, p), REF_SCRIPT_SIZE) };
+        PlutusWitness::new_with_ref(&src, &DatumSource::new_ref_input(&op_outpoint(22)), &red)
+    }
+}
+
+/// signers declared for a native script used by reference: variant 1 all keys it names,
+/// variant 2 only the first, variant 3 only the last
+pub fn declared_native_signers(w: &World, n: usize, variant: u8) -> Vec<Vec<u8>> {
+    let all = crate::ledger::native_script_keys(&w.native[n].to_bytes());
+    match variant {
+        2 => all.into_iter().take(1).collect(),
+        3 => all.into_iter().rev().take(1).collect(),
+        _ => all,
     }
 }
 
@@ -354,7 +385,7 @@ pub fn apply(w: &World, st: &mut St, op: Op) -> bool {
                         // declares its signers, as the API documents
                         let mut s = NativeScriptSource::new_ref_input(&w.native[*n].hash(), &op_outpoint(REF_SCRIPT_OUTPOINT + 1), 40);
                         let mut ks = Ed25519KeyHashes::new();
-                        for k in crate::ledger::native_script_keys(&w.native[*n].to_bytes()) {
+                        for k in declared_native_signers(w, *n, variant) {
                             ks.add(&Ed25519KeyHash::from_bytes(k).unwrap());
                         }
                         s.set_required_signers(&ks);
@@ -716,8 +747,8 @@ pub fn setup(w: &World, st: &St, params: &Params) -> Result<TransactionBuilder, 
     }
     for r in &st.m.ref_inputs {
         match r {
-            0 => tb.add_reference_input(&op_outpoint(18)),
-            1 => tb.add_script_reference_input(&op_outpoint(19), 30_000),
+            0 => tb.add_reference_input(&op_outpoint(22)),
+            1 => tb.add_script_reference_input(&op_outpoint(23), 30_000),
             // the caller knows that UTxO 1 carries a 20 000-byte reference script and declares it
             3 => tb.add_script_reference_input(&op_outpoint(1), 20_000),
             _ => tb.add_reference_input(&op_outpoint(0)),
@@ -888,8 +919,9 @@ pub fn needed_signers(w: &World, st: &St, t: &PTx) -> Result<Needed, String> {
     }
     for (i, variant) in &st.m.inputs {
         if let Owner::Native(s) = &w.utxos[*i].0.owner {
-            if *variant == 1 {
-                for k in ledger::native_script_keys(&w.native[*s].to_bytes()) {
+            // by reference: the signers are what the caller declared for that input
+            if *variant >= 1 {
+                for k in declared_native_signers(w, *s, *variant) {
                     n.keys.insert(k);
                 }
             }
@@ -912,7 +944,7 @@ pub fn ref_script_total(t: &PTx, st: &St) -> u64 {
             total += REF_SCRIPT_SIZE as u64;
         } else if *op == op_outpoint_key(REF_SCRIPT_OUTPOINT + 1) {
             total += 40;
-        } else if *op == op_outpoint_key(19) {
+        } else if *op == op_outpoint_key(23) {
             total += 30_000;
         } else if *op == op_outpoint_key(1) && st.m.ref_inputs.contains(&3) {
             total += 20_000;
@@ -936,16 +968,16 @@ pub fn ops_for(prop: &str) -> Vec<Op> {
             Op::Cert(0), Op::Cert(1), Op::Cert(2), Op::Cert(3), Op::Cert(7), Op::Cert(8), Op::Cert(13), Op::Cert(15), Op::Cert(20),
             Op::Wd(0), Op::Wd(2), Op::Mint(0), Op::Mint(1), Op::Mint(3), Op::Proposal(0), Op::Donate,
             Op::Fee(0), Op::Fee(1), Op::Fee(2), Op::Fee(3), Op::Coll(1), Op::Meta, Op::RefIn(1), Op::RefIn(3),
-            Op::WdAgain(0), Op::WdAgain(2), Op::Wd(4), Op::InAgain(0), Op::In(7, 0), Op::In(7, 1), Op::In(8, 0),
+            Op::WdAgain(0), Op::WdAgain(2), Op::Wd(4), Op::InAgain(0), Op::In(7, 0), Op::In(7, 1), Op::In(8, 0), Op::In(17, 0),
         ],
         "C18" | "C16" => vec![
-            Op::In(0, 0), Op::In(2, 0), Op::In(1, 0), Op::In(5, 0), Op::In(13, 0), Op::In(12, 0), Op::In(6, 0), Op::In(6, 1), Op::In(10, 0), Op::In(7, 0), Op::In(7, 1), Op::In(11, 0), Op::In(8, 0), Op::In(14, 0),
+            Op::In(0, 0), Op::In(2, 0), Op::In(1, 0), Op::In(5, 0), Op::In(13, 0), Op::In(12, 0), Op::In(6, 0), Op::In(6, 1), Op::In(10, 0), Op::In(10, 2), Op::In(16, 3), Op::In(16, 1), Op::In(7, 0), Op::In(7, 1), Op::In(11, 0), Op::In(8, 0), Op::In(8, 2), Op::In(14, 0), Op::In(17, 0), Op::In(17, 1),
             Op::Out(0), Op::Coll(1), Op::Coll(0), Op::Cert(5), Op::Cert(7), Op::Cert(8), Op::Cert(6), Op::Cert(13), Op::Cert(25),
             Op::Wd(0), Op::Wd(1), Op::Wd(3), Op::Vote(0), Op::Vote(1), Op::Vote(2), Op::Vote(3), Op::Vote(4),
             Op::Mint(0), Op::Mint(2), Op::ReqSigner(3), Op::ReqSigner(0), Op::RefIn(0), Op::RefIn(1), Op::RefIn(2), Op::ExtraDatum(0), Op::ExtraDatum(1), Op::ExtraDatum(3), Op::Meta,
         ],
         "C09" | "C10" => vec![
-            Op::In(0, 0), Op::In(7, 0), Op::In(7, 1), Op::In(8, 0), Op::In(11, 0), Op::In(6, 0), Op::In(2, 0), Op::In(14, 0), Op::In(15, 0), Op::In(15, 1),
+            Op::In(0, 0), Op::In(7, 0), Op::In(7, 1), Op::In(8, 0), Op::In(11, 0), Op::In(6, 0), Op::In(2, 0), Op::In(14, 0), Op::In(14, 2), Op::In(15, 0), Op::In(15, 1), Op::In(8, 3),
             Op::Mint(0), Op::Mint(2), Op::Mint(4), Op::Cert(25), Op::Cert(5), Op::Cert(26), Op::Cert(16), Op::Wd(0), Op::Wd(1), Op::Wd(3), Op::Wd(5), Op::Vote(1), Op::Vote(3), Op::Vote(4), Op::Vote(5),
             Op::Proposal(0), Op::Proposal(3), Op::Proposal(4),
             Op::ExtraDatum(0), Op::ExtraDatum(1), Op::ExtraDatum(3), Op::Meta, Op::Out(0),
